@@ -40,7 +40,12 @@ GG = "pytestarch.eval_structure_generation.graph_generation.graph_generator"
 IMPORT_CLASS = "pytestarch.eval_structure.types.Import"
 
 LIMITS = (None, 1, 2, 3, 4, 7)
-NAME_POOL = ("a.b.c.d.e.f", "p.q.r", "x", "m.n", "k.l.m.n.o.p.q.r.s", "api.api_v2.x.y")
+# test names; consecutive entries are handed to the two ends of a pair: textual-prefix siblings (api / api_v2), names that flatten to the same
+# node up to some level, parent / child, repeated and prefix-of-each-other parts (models / model)
+NAME_POOL = (
+    "proj.core.api.handlers.h", "proj.core.api_v2.schema.s", "proj.core.api.models.user", "proj.core.api.handlers.v2", "x",
+    "pkg.models.model.m.n", "a.b.a.b.c.a.b", "proj.core", "proj.core.api", "k.l.m.n.o.p.q.r.s",
+)
 EDGE_ADDERS = {"add_edge"}
 BULK_EDGE_ADDERS = {"add_edges_from", "add_weighted_edges_from", "add_path", "add_cycle", "add_star", "update"}
 
@@ -228,8 +233,8 @@ class Flattening:
         for n in ast.walk(e):
             if isinstance(n, ast.Attribute) and n.attr in self.carriers:
                 return True
-            if isinstance(n, ast.Name) and flow is not None and "LIMIT" in flow.tags(n):
-                return True
+            if isinstance(n, ast.Name) and flow is not None and flow.tags(n) and set(flow.tags(n)) <= {"LIMIT"}:
+                return True  # a value derived from the limit alone (names that passed a truncation carry the tag as well)
             if isinstance(n, ast.Name) and f == self.cx.init and n.id == self.cx.limit_param:
                 return True
         return False
@@ -285,7 +290,7 @@ class Flattening:
         for f in self.cons:
             sinks = {id(n) for n, _, _ in self.cx.sink_events(f)}
             for n in own_nodes(f.node):
-                if not isinstance(n, (ast.Call, ast.IfExp)) or id(n) in sinks:
+                if not isinstance(n, (ast.Call, ast.IfExp, ast.Compare)) or id(n) in sinks:
                     continue
                 if isinstance(n, ast.Call):
                     if isinstance(n.func, ast.Attribute) and self.cx.is_import_value(f, n.func.value):
@@ -297,6 +302,12 @@ class Flattening:
                     if any(c in self.cons for c in cs):
                         continue
                     parts = [*n.args, *[k.value for k in n.keywords]]
+                    if isinstance(n.func, ast.Attribute):
+                        parts.append(n.func.value)  # name.startswith(...)
+                elif isinstance(n, ast.Compare):
+                    if len(n.ops) == 1 and isinstance(n.ops[0], (ast.Is, ast.IsNot)):
+                        continue
+                    parts = [n.left, *n.comparators]
                 else:
                     parts = [n.body, n.orelse]
                 if not any("RAW" in flow.tags(x) for p in parts for x in ast.walk(p)):
@@ -412,7 +423,7 @@ class Flattening:
                         why = why or "; ".join(self.ev.notes[-2:]) or "undetermined value"
                     else:
                         lv = self._leaves(v)
-                        rows[(rnd, lim)] = ("names", lv, used) if lv is not None else ("other", repr(v)[:60], used)
+                        rows[(rnd, lim)] = ("names", lv, used, v) if lv is not None else ("other", repr(v)[:60], used, v)
                 except Raised as r:
                     rows[(rnd, lim)] = ("raise", r.name, used)
                 except Unknown as u:
@@ -424,6 +435,8 @@ class Flattening:
         dependent = any(rows[(rnd, lim)][:2] != rows[(rnd, None)][:2] for rnd in range(len(NAME_POOL)) for lim in LIMITS)
         if not dependent:
             return {"verdict": "independent"}
+        if all(r[0] == "other" and isinstance(r[3], bool) for r in rows.values()):
+            return self._classify_predicate(rows)
         cut_only = all(rows[(rnd, None)][0] == "raise" for rnd in range(len(NAME_POOL)))
         if cut_only and self.unreachable_without_limit(f, e):
             # the expression is only evaluated when a limit is set; what happens without one is decided by the code around it
@@ -443,6 +456,29 @@ class Flattening:
                 if got[0] != "names" or got[1] != want:
                     return {"verdict": "wrong-cut", "example": f"with limit {lim}, {names} becomes {self._show(got)} instead of {want}"}
         return {"verdict": "cut-only" if cut_only else "flatten"}
+
+    @staticmethod
+    def _classify_predicate(rows: dict) -> dict:
+        """A limit-dependent test on names in the construction code: the only such test the quotient law allows is whether two
+        names flatten to the same node (in either polarity)."""
+        agree = disagree = 0
+        first_bad: dict[bool, str] = {}
+        for (rnd, lim), r in rows.items():
+            used = r[2]
+            if len(used) < 2 or used[0] == used[1]:
+                return {"verdict": "predicate-unary"}
+            a, b = used[0], used[1]
+            same = trunc(a, lim) == trunc(b, lim)
+            if r[3] == same:
+                agree += 1
+                first_bad.setdefault(False, f"with limit {lim} it is {r[3]} for {a} / {b}, which flatten to {trunc(a, lim)} / {trunc(b, lim)}")
+            else:
+                disagree += 1
+                first_bad.setdefault(True, f"with limit {lim} it is {r[3]} for {a} / {b}, which flatten to {trunc(a, lim)} / {trunc(b, lim)}")
+        if not disagree or not agree:
+            return {"verdict": "predicate-same-node"}
+        positive = agree >= disagree
+        return {"verdict": "predicate-wrong", "example": first_bad[positive], "means": "the two names flatten to the same node" if positive else "the two names flatten to different nodes"}
 
     def cond_without_limit(self, f: FuncInfo, c: ast.expr):
         return self.cond_value(f, c, None)
@@ -523,6 +559,20 @@ def rule_r1_r3(cx: Ctx, cons: list[FuncInfo]) -> Flow:
         if verdict == "cut-only":
             guarded_updates.append((f, e))
             verdict = "flatten"
+        if verdict.startswith("predicate"):
+            pkey = repo.key(f, stmt_of(e)) + f" [{norm(e, 60)}]"
+            if verdict == "predicate-same-node":
+                res.add("C09.R2", pkey, True, "a test whether two names flatten to the same node (tabulated)", where(f, e), kind="decision-table")
+            elif verdict == "predicate-wrong":
+                res.add(
+                    "C09.R2", pkey, False,
+                    f"`{norm(e, 70)}` depends on the level limit and decides about a pair of names, but it is not the test whether {v['means']}: {v['example']}; "
+                    "what the graph keeps or drops then differs from the quotient of the full graph (an import between textual-prefix siblings is lost or a self-edge is kept)",
+                    where(f, e), kind="decision-table",
+                )
+            else:
+                res.undecide("C09.R2", pkey, f"`{norm(e, 70)}` is a test on a name that depends on the level limit; its role in the construction is not understood", where(f, e))
+            continue
         tg = fl.targets(f, e)
         owner = tg[0] if len(tg) == 1 else f
         key = f"{owner.relpath}::{owner.qualname}" if len(tg) == 1 else repo.key(f, stmt_of(e)) + f" [{norm(e, 50)}]"
@@ -605,7 +655,7 @@ def rule_r1_r3(cx: Ctx, cons: list[FuncInfo]) -> Flow:
             if id(n) in classified_nodes or id(n) in idiom_nodes:
                 continue
             is_carrier = isinstance(n, ast.Attribute) and n.attr in fl.carriers and isinstance(n.ctx, ast.Load)
-            is_limit = isinstance(n, ast.Name) and isinstance(n.ctx, ast.Load) and "LIMIT" in flow.tags(n)
+            is_limit = isinstance(n, ast.Name) and isinstance(n.ctx, ast.Load) and bool(flow.tags(n)) and set(flow.tags(n)) <= {"LIMIT"}
             if not (is_carrier or is_limit):
                 continue
             st = stmt_of(n)
@@ -838,7 +888,7 @@ class Capture:
         else:
             v = None  # the constructor's default: no limit
         if v is POISON:
-            return "none", "the limit handed to the graph cannot be determined"
+            return "undetermined", "the limit handed to the graph depends on something that cannot be evaluated"
         return "ok", v
 
 
@@ -895,7 +945,7 @@ def tabulate_limit(cx: Ctx, entry: FuncInfo, style: str) -> tuple[list[tuple], s
                     return rows, f"{entry.qualname} cannot be evaluated: {u}"
             st, v = cap.limit()
             if st != "ok":
-                return rows, f"{entry.qualname}: {v}" + (f" ({'; '.join(ev.notes[-2:])})" if ev.notes else "")
+                return rows, ("!" if st == "undetermined" else "") + f"{entry.qualname}: {v}" + (f" ({'; '.join(ev.notes[-2:])})" if ev.notes else "")
             rows.append((lim, depth, ("value", v)))
     return rows, None
 
@@ -915,6 +965,11 @@ def rule_r4(cx: Ctx, scan_depends_on_limit: bool = False) -> None:
     for entry, style in entries:
         rows, why = tabulate_limit(cx, entry, style)
         if why is not None:
+            if why.startswith("!"):
+                # the value itself is out of reach (not only the way to it): tabulating a later function would hide that
+                res.undecide("C09.R4", f"{entry.relpath}::{entry.qualname}::limit handed to the graph", why[1:], where(entry, entry.node))
+                decided += 1
+                continue
             problems.append(why)
             continue
         decided += 1
